@@ -63,9 +63,9 @@ def boundary_histories(rnd, thorough):
     Ls = [0, 1, 2, 3, 5, 10, 11, 255, 256, 257, 266] + [GB * k + d for k in (1, 2) for d in near] + [GB * 3, GB * 3 + 1, 20000, 65535 + 10]
     if thorough:
         Ls += [256 * k + d for k in range(1, 40) for d in (-10, -1, 0, 1, 10)] + [GB * k + d for k in range(3, 29) for d in (-10, -5, -1, 0, 1, 5)]
-    for kind in ("ML", "BAS", "ASC"):
+    for kind in ("ML", "BAS", "ASC", "MLA", "DAT", "BASA", "TXT", "TXB"):
         extra = ct.KINDS[kind][2]
-        for L in Ls:
+        for L in (Ls if kind in ("ML", "BAS", "ASC") else [1, 11, 300, 2303, 2304, 2305, 2309, 4609]):
             if L - extra < 0 or L - extra > 65535:
                 continue
             specs.append((None, [ct.disk_file(rnd, "F", kind, L)]))
@@ -83,7 +83,7 @@ def random_histories(rnd, n, perm_share=0.4):
             order = list(range(68))
             rnd.shuffle(order)
         k = rnd.choice([2, 3, 3, 4, 6])
-        fs = [ct.disk_file(rnd, "G%d" % i, rnd.choice(["ML", "ML", "BAS", "ASC"]), rnd.choice(lens)) for i in range(k)]
+        fs = [ct.disk_file(rnd, "G%d" % i, rnd.choice(["ML", "ML", "BAS", "ASC", "MLA", "DAT", "BASA", "TXT"]), rnd.choice(lens)) for i in range(k)]
         specs.append((order, fs))
     return specs
 
@@ -110,7 +110,7 @@ def model_sequences(ctx, rnd, thorough):
     for r in recs:
         fs = []
         for i, L in enumerate(r["lens"]):
-            kind = rnd.choice([k for k in ("ML", "BAS", "ASC") if 0 <= L - ct.KINDS[k][2] <= 65535])
+            kind = rnd.choice([k for k in ("ML", "ML", "BAS", "ASC", "MLA", "DAT", "BASA") if 0 <= L - ct.KINDS[k][2] <= 65535])
             fs.append(ct.disk_file(rnd, "Q%d" % i, kind, L))
         specs.append((None, fs))
     with mp.Pool(16) as pool:
@@ -140,7 +140,7 @@ def spec_written_images(ctx, rnd, n):
         nf = rnd.choice([1, 1, 2, 3])
         files, chains = [], []
         for i in range(nf):
-            kind = rnd.choice(["ML", "ML", "BAS", "ASC"])
+            kind = rnd.choice(["ML", "ML", "BAS", "ASC", "MLA", "DAT", "BASA"])
             L = rnd.choice([1, 11, 300, 2299, 2300, 2304, 2305, 2309, 2310, 4600, 4608, 4609, 4613, 7000, 11520])
             f = ct.disk_file(rnd, "W%d" % i, kind, L)
             sl = len(f["data"]) + ct.KINDS[kind][2]
